@@ -44,6 +44,9 @@ type Act struct {
 	// Accum: the action adds to $$ instead of overwriting it ("$$ = $$ + ..."): the same value as long as a
 	// reduction starts with a fresh, zero $$ (Go variants only; an unassigned TypeScript field is undefined)
 	Accum bool `json:"accum,omitempty"`
+	// Pre: the action first assigns a constant to $$ and only then computes the value from $1..$n
+	// ("$$ = 0; $$ = ..."): the same value unless $$ and some $n share storage
+	Pre bool `json:"pre,omitempty"`
 	// Plain: the action text depends only on the positions referenced and on whether a value is a
 	// string or an int - not on the rule number and not on the tags; no reduction log is written.
 	// Rules with the same shape then have byte-identical action text although their symbols use
@@ -420,6 +423,9 @@ func (g *Grammar) ActionText(k int) string {
 		if r.Act.Accum {
 			return s + "; $$ = ($$ + " + e + ") % 10007"
 		}
+		if r.Act.Pre {
+			return s + "; $$ = 0; $$ = (" + e + ") % 10007"
+		}
 		return s + "; $$ = (" + e + ") % 10007"
 	}
 	e := fmt.Sprintf("\"(%d\"", k)
@@ -432,6 +438,9 @@ func (g *Grammar) ActionText(k int) string {
 	}
 	if r.Act.Accum {
 		return s + "; $$ = $$ + " + e + " + \")\""
+	}
+	if r.Act.Pre {
+		return s + "; $$ = \"\"; $$ = " + e + " + \")\""
 	}
 	return s + "; $$ = " + e + " + \")\""
 }
